@@ -74,11 +74,10 @@ Qed.
 Lemma unit_vec_nth k i j : j < k -> nth j (unit_vec k i) 0 = if j =? i then 1 else 0.
 Proof. intro H. unfold unit_vec. rewrite map_seq_nth by exact H. reflexivity. Qed.
 
-Lemma repeat_nth {A} (x d : A) k j : nth j (repeat x k) d = if j <? k then x else d.
+Lemma repeat_nth {A} (x d : A) k : forall j, nth j (repeat x k) d = if j <? k then x else d.
 Proof.
-  revert j. induction k; intros [|j]; cbn; try reflexivity. rewrite IHk.
-  destruct (j <? k) eqn:E; destruct (S j <? S k) eqn:E2; try reflexivity;
-    apply Nat.ltb_lt in E || apply Nat.ltb_ge in E; apply Nat.ltb_lt in E2 || apply Nat.ltb_ge in E2; lia.
+  induction k; intros [|j]; cbn; try reflexivity.
+  rewrite IHk. reflexivity.
 Qed.
 
 Lemma unit_vec_not_zero k i : i < k -> unit_vec k i <> repeat 0 k.
@@ -128,7 +127,8 @@ Proof.
       apply order_eqb_spec in Hj. apply unit_vec_inj in Hj; [|lia|exact Hi]. subst.
       rewrite Nat.sub_0_r. reflexivity.
     + exfalso. pose proof (find_none _ _ Ef i) as Hn. cbn in Hn.
-      rewrite order_eqb_refl in Hn. assert (In i (seq 0 (length ps))) by (apply in_seq; lia). auto.
+      rewrite order_eqb_refl in Hn. assert (Hi2 : In i (seq 0 (length ps))) by (apply in_seq; lia).
+      specialize (Hn Hi2). discriminate.
 Qed.
 
 Theorem list_to_dict_other h0 ps d n :
@@ -149,10 +149,10 @@ Qed.
 
 Lemma insert_u_in s l x : In x (insert_u s l) <-> x = s \/ In x l.
 Proof.
-  induction l as [|y r IH]; cbn; [tauto|].
-  destruct (s <? y) eqn:E1; [cbn; tauto|].
-  destruct (s =? y) eqn:E2; [apply Nat.eqb_eq in E2; subst; cbn; tauto|].
-  cbn. rewrite IH. tauto.
+  induction l as [|y r IH]; cbn; [intuition congruence|].
+  destruct (s <? y) eqn:E1; [cbn; intuition congruence|].
+  destruct (s =? y) eqn:E2; [apply Nat.eqb_eq in E2; subst; cbn; intuition congruence|].
+  cbn. rewrite IH. intuition congruence.
 Qed.
 
 Lemma insert_u_sorted s l : StronglySorted lt l -> StronglySorted lt (insert_u s l).
